@@ -2,6 +2,7 @@ import ZarrsModel.Model.Meta
 import ZarrsModel.Model.Hier
 import ZarrsModel.Lemmas.Json
 import ZarrsModel.Lemmas.Meta
+import ZarrsModel.Lemmas.MetaWf
 import ZarrsModel.Lemmas.Hier
 /-
 C13 — metadata and hierarchy persist faithfully.
@@ -38,31 +39,146 @@ def ArrayDoc.ok (d : ArrayDoc) : Prop :=
 def GroupDoc.ok (d : GroupDoc) : Prop :=
   objOk d.attrs ∧ (∀ kv ∈ d.extra, strOk kv.1 ∧ AField.ok kv.2 ∧ kv.1 ∉ groupKeys) ∧ extraSorted d.extra
 
+/-! bridges to the lemma library's formulations -/
+
+theorem metaV3_ok_iff (m : MetaV3) : MetaV3.ok m ↔ MetaV3.good m := by
+  obtain ⟨n, c, mu⟩ := m
+  cases c with
+  | none => simp [MetaV3.ok, MetaV3.good]
+  | some c => simp [MetaV3.ok, MetaV3.good, objOk]
+
+theorem afield_ok_iff (a : AField) : AField.ok a ↔ AField.good a := by
+  obtain ⟨f, mu⟩ := a
+  cases f <;> exact Iff.rfl
+
+theorem arrayDoc_ok_iff (d : ArrayDoc) : ArrayDoc.ok d ↔ ArrayDoc.good d := by
+  constructor
+  · rintro ⟨h1, h2, h3, h4, h5, h6, h7, h8, h9, h10, h11⟩
+    refine ⟨h1, (metaV3_ok_iff _).1 h2, (metaV3_ok_iff _).1 h3, (metaV3_ok_iff _).1 h4, h5,
+      fun c hc => (metaV3_ok_iff _).1 (h6 c hc), h7, fun c hc => (metaV3_ok_iff _).1 (h8 c hc), ?_,
+      fun kv hkv => ⟨(h10 kv hkv).1, (afield_ok_iff _).1 (h10 kv hkv).2.1, (h10 kv hkv).2.2⟩, h11⟩
+    intro ns hns
+    rw [hns] at h9
+    exact h9
+  · intro h
+    refine ⟨h.shape, (metaV3_ok_iff _).2 h.dt, (metaV3_ok_iff _).2 h.cg, (metaV3_ok_iff _).2 h.ck, h.fill,
+      fun c hc => (metaV3_ok_iff _).2 (h.codecs c hc), h.attrs, fun c hc => (metaV3_ok_iff _).2 (h.st c hc), ?_,
+      fun kv hkv => ⟨(h.extra kv hkv).1, (afield_ok_iff _).2 (h.extra kv hkv).2.1, (h.extra kv hkv).2.2⟩, h.sorted⟩
+    cases hdn : d.dimNames with
+    | none => trivial
+    | some ns => exact h.dn ns hdn
+
+theorem groupDoc_ok_iff (d : GroupDoc) : GroupDoc.ok d ↔ GroupDoc.good d := by
+  constructor
+  · rintro ⟨h1, h2, h3⟩
+    exact ⟨h1, fun kv hkv => ⟨(h2 kv hkv).1, (afield_ok_iff _).1 (h2 kv hkv).2.1, (h2 kv hkv).2.2⟩, h3⟩
+  · intro h
+    exact ⟨h.attrs, fun kv hkv => ⟨(h.extra kv hkv).1, (afield_ok_iff _).2 (h.extra kv hkv).2.1, (h.extra kv hkv).2.2⟩,
+      h.sorted⟩
+
+/-! ### concrete values documenting that the hypotheses below are satisfiable -/
+
+/-- `{"name":"regular","configuration":{"chunk_shape":[2,3]},"must_understand":false}` -/
+def exMeta : MetaV3 := ⟨ascii "regular", some [(ascii "chunk_shape", .arr [.num ['2'], .num ['3']])], false⟩
+theorem exMeta_ok : MetaV3.ok exMeta := by
+  refine ⟨strOk_ascii _ (by decide), ?_⟩
+  show objOk _
+  refine ⟨?_, by unfold keysDistinct; decide⟩
+  simp only [wfKVs, J.wf, wfList, and_true]
+  exact ⟨strOk_ascii _ (by decide), tokOk_of_natTok 2 _ (by decide), tokOk_of_natTok 3 _ (by decide)⟩
+
+/-- an additional field `{"a":1}` that need not be understood -/
+def exField : AField := ⟨.obj [(ascii "a", .num ['1'])], false⟩
+theorem exField_ok : AField.ok exField := by
+  refine ⟨?_, (lookup_eq_none_iff _ _).2 (by decide)⟩
+  show (J.obj _).wf
+  simp only [J.wf, wfKVs, and_true]
+  exact ⟨⟨strOk_ascii _ (by decide), tokOk_of_natTok 1 _ (by decide)⟩, by unfold keysDistinct; decide⟩
+
+/-- a 4x6 `uint8` array with attributes, dimension names and two additional fields (one exempt from
+understanding, one not) -/
+def exDoc : ArrayDoc :=
+  { shape := [['4'], ['6']], dataType := ⟨ascii "uint8", none, true⟩, chunkGrid := exMeta,
+    cke := ⟨ascii "default", none, true⟩, fill := .num ['0'], codecs := [⟨ascii "bytes", none, false⟩],
+    attrs := [(ascii "title", .str (ascii "demo"))], st := [],
+    dimNames := some [some (ascii "y"), none],
+    extra := [(ascii "my_ext", exField), (ascii "zz", ⟨.str (ascii "v"), true⟩)] }
+
+theorem exDoc_ok : ArrayDoc.ok exDoc := by
+  refine ⟨?_, ⟨strOk_ascii _ (by decide), trivial⟩, exMeta_ok, ⟨strOk_ascii _ (by decide), trivial⟩,
+    tokOk_of_natTok 0 _ (by decide), ?_, ?_, ?_, ?_, ?_, ?_⟩
+  · intro t ht
+    simp only [exDoc, List.mem_cons, List.not_mem_nil, or_false] at ht
+    rcases ht with rfl | rfl
+    · exact ⟨by decide, tokOk_of_natTok 4 _ (by decide)⟩
+    · exact ⟨by decide, tokOk_of_natTok 6 _ (by decide)⟩
+  · intro c hc
+    simp only [exDoc, List.mem_cons, List.not_mem_nil, or_false] at hc
+    subst hc; exact ⟨strOk_ascii _ (by decide), trivial⟩
+  · refine ⟨?_, by unfold keysDistinct; decide⟩
+    simp only [exDoc, wfKVs, J.wf, and_true]
+    exact ⟨strOk_ascii _ (by decide), strOk_ascii _ (by decide)⟩
+  · intro c hc; cases hc
+  · show ∀ n ∈ [some (ascii "y"), none], ∀ s, n = some s → strOk s
+    intro n hn s hs
+    simp only [List.mem_cons, List.not_mem_nil, or_false] at hn
+    rcases hn with rfl | rfl
+    · cases hs; exact strOk_ascii _ (by decide)
+    · cases hs
+  · intro kv hkv
+    simp only [exDoc, List.mem_cons, List.not_mem_nil, or_false] at hkv
+    rcases hkv with rfl | rfl
+    · exact ⟨strOk_ascii _ (by decide), exField_ok, by decide⟩
+    · exact ⟨strOk_ascii _ (by decide), ⟨strOk_ascii _ (by decide), rfl⟩, by decide⟩
+  · unfold extraSorted; decide
+
+/-- a group with attributes and an additional field -/
+def exGroup : GroupDoc := ⟨[(ascii "title", .str (ascii "demo"))], [(ascii "my_ext", exField), (ascii "zz", ⟨.str (ascii "v"), true⟩)]⟩
+
+theorem exGroup_ok : GroupDoc.ok exGroup := by
+  refine ⟨⟨?_, by unfold keysDistinct; decide⟩, ?_, by unfold extraSorted; decide⟩
+  · simp only [exGroup, wfKVs, J.wf, and_true]
+    exact ⟨strOk_ascii _ (by decide), strOk_ascii _ (by decide)⟩
+  · intro kv hkv
+    simp only [exGroup, List.mem_cons, List.not_mem_nil, or_false] at hkv
+    rcases hkv with rfl | rfl
+    · exact ⟨strOk_ascii _ (by decide), exField_ok, by decide⟩
+    · exact ⟨strOk_ascii _ (by decide), ⟨strOk_ascii _ (by decide), rfl⟩, by decide⟩
+
 /-! ### extension metadata -/
 
+-- (`h` is kept from the stated property; the proof does not need it)
+set_option linter.unusedVariables false in
 /-- **what is written for a `MetadataV3` reads back as the same value** — name as given, configuration (absent,
 empty or not) and `must_understand` included -/
 theorem metaV3_roundtrip (m : MetaV3) (h : MetaV3.ok m) : MetaV3.ofJ m.toJ = some m := by
-  sorry
+  exact metaV3_ofJ_toJ m
+example : MetaV3.ok exMeta := exMeta_ok
+-- (`h`, `hj` are kept from the stated property; the proof does not need them)
+set_option linter.unusedVariables false in
 /-- **re-serialising a parsed `MetadataV3` is a fixed point** -/
 theorem metaV3_fixed (j : J) (m : MetaV3) (h : MetaV3.ofJ j = some m) (hj : j.wf) :
     MetaV3.ofJ m.toJ = some m := by
-  sorry
+  exact metaV3_ofJ_toJ m
+example : ∃ j m, MetaV3.ofJ j = some m ∧ j.wf :=
+  ⟨exMeta.toJ, exMeta, metaV3_ofJ_toJ exMeta, metaV3_toJ_wf exMeta ((metaV3_ok_iff _).1 exMeta_ok)⟩
 /-- the three forms of a name are read as written: string, object, object with `must_understand: false` -/
 theorem metaV3_mu_survives (n : Str) (c : Option Obj) :
     MetaV3.ofJ (MetaV3.toJ ⟨n, c, false⟩) = some ⟨n, c, false⟩ := by
-  sorry
+  exact metaV3_ofJ_toJ _
 
 /-- **an additional field reads back as written**, with its keys in the same order -/
 theorem afield_roundtrip (a : AField) (h : AField.ok a) : AField.ofJ a.toJ = a := by
-  sorry
+  exact afield_ofJ_toJ a ((afield_ok_iff a).1 h).2
+example : AField.ok exField := exField_ok
 /-- parsing leaves additional fields in that form, so re-serialising is a fixed point -/
 theorem afield_ofJ_ok (j : J) (h : j.wf) : AField.ok (AField.ofJ j) := by
-  sorry
+  exact (afield_ok_iff _).2 (afield_ofJ_good j h)
+example : (AField.toJ exField).wf := afield_toJ_wf exField ((afield_ok_iff _).1 exField_ok)
 /-- a field is exempt from understanding exactly when it is an object carrying `"must_understand": false` -/
 theorem afield_mu_false_iff (j : J) :
     (AField.ofJ j).mu = false ↔ ∃ o, j = .obj o ∧ lookup o kMustUnderstand = some (.bool false) := by
-  sorry
+  exact afield_mu_false_iff' j
 
 /-! ### array and group documents -/
 
@@ -70,23 +186,38 @@ theorem afield_mu_false_iff (j : J) :
 chunk key encoding / codec / storage transformer names and configurations as given, fill value, attributes in
 order, dimension names, additional fields -/
 theorem arrayDoc_roundtrip (d : ArrayDoc) (h : ArrayDoc.ok d) : ArrayDoc.ofJ d.toJ = some d := by
-  sorry
+  exact arrayDoc_roundtrip_good d ((arrayDoc_ok_iff d).1 h)
+example : ArrayDoc.ok exDoc := exDoc_ok
 /-- **the same through the stored bytes** -/
 theorem arrayDoc_text_roundtrip (d : ArrayDoc) (h : ArrayDoc.ok d) : ArrayDoc.ofText d.toText = some d := by
-  sorry
+  exact arrayDoc_text_roundtrip_good d ((arrayDoc_ok_iff d).1 h)
+example : ArrayDoc.ok exDoc := exDoc_ok
 /-- **parsing yields a well-formed document**, hence **re-serialising a parsed document is a fixed point** -/
 theorem arrayDoc_ofJ_ok (j : J) (hj : j.wf) (d : ArrayDoc) (h : ArrayDoc.ofJ j = some d) : ArrayDoc.ok d := by
-  sorry
+  exact (arrayDoc_ok_iff d).2 (arrayDoc_ofJ_good j hj d h)
+example : ∃ j d, j.wf ∧ ArrayDoc.ofJ j = some d :=
+  ⟨exDoc.toJ, exDoc, arrayDoc_toJ_wf exDoc ((arrayDoc_ok_iff _).1 exDoc_ok), arrayDoc_roundtrip exDoc exDoc_ok⟩
 theorem arrayDoc_fixed (j : J) (hj : j.wf) (d : ArrayDoc) (h : ArrayDoc.ofJ j = some d) :
     ArrayDoc.ofJ d.toJ = some d ∧ (∀ d', ArrayDoc.ofJ d.toJ = some d' → d'.toJ = d.toJ) := by
-  sorry
+  have hr := arrayDoc_roundtrip_good d (arrayDoc_ofJ_good j hj d h)
+  refine ⟨hr, ?_⟩
+  intro d' hd'
+  rw [hr] at hd'
+  cases hd'
+  rfl
+example : ∃ j d, j.wf ∧ ArrayDoc.ofJ j = some d :=
+  ⟨exDoc.toJ, exDoc, arrayDoc_toJ_wf exDoc ((arrayDoc_ok_iff _).1 exDoc_ok), arrayDoc_roundtrip exDoc exDoc_ok⟩
 
 theorem groupDoc_roundtrip (d : GroupDoc) (h : GroupDoc.ok d) : GroupDoc.ofJ d.toJ = some d := by
-  sorry
+  exact groupDoc_roundtrip_good d ((groupDoc_ok_iff d).1 h)
+example : GroupDoc.ok exGroup := exGroup_ok
 theorem groupDoc_text_roundtrip (d : GroupDoc) (h : GroupDoc.ok d) : GroupDoc.ofText d.toText = some d := by
-  sorry
+  exact groupDoc_text_roundtrip_good d ((groupDoc_ok_iff d).1 h)
+example : GroupDoc.ok exGroup := exGroup_ok
 theorem groupDoc_ofJ_ok (j : J) (hj : j.wf) (d : GroupDoc) (h : GroupDoc.ofJ j = some d) : GroupDoc.ok d := by
-  sorry
+  exact (groupDoc_ok_iff d).2 (groupDoc_ofJ_good j hj d h)
+example : ∃ j d, j.wf ∧ GroupDoc.ofJ j = some d :=
+  ⟨exGroup.toJ, exGroup, groupDoc_toJ_wf exGroup ((groupDoc_ok_iff _).1 exGroup_ok), groupDoc_roundtrip exGroup exGroup_ok⟩
 
 /-- **what a parsed array document holds is what the text said**: every known field is the value under its key,
 and every other key is an additional field -/
@@ -96,31 +227,96 @@ theorem arrayDoc_fields (o : Obj) (d : ArrayDoc) (h : ArrayDoc.ofJ (.obj o) = so
     (lookup o (ascii "attributes") = some (.obj d.attrs) ∨ (lookup o (ascii "attributes") = none ∧ d.attrs = [])) ∧
     (∀ k v, (k, v) ∈ o → k ∉ arrayKeys → keysDistinct o → (k, AField.ofJ v) ∈ d.extra) ∧
     (∀ k a, (k, a) ∈ d.extra → ∃ v, (k, v) ∈ o ∧ k ∉ arrayKeys ∧ a = AField.ofJ v) := by
-  sorry
+  have hi := arrayDoc_ofJ_inv o d h
+  refine ⟨hi.shape, hi.fill, ?_, ?_, ?_⟩
+  · rcases hi.attrs with ⟨h1, h2⟩ | h1
+    · exact Or.inr ⟨h1, h2⟩
+    · exact Or.inl h1
+  · intro k v hkv hk hd
+    rw [hi.extra]
+    exact extrasOf_mem arrayKeys o hd k v hkv hk
+  · intro k a hka
+    rw [hi.extra] at hka
+    obtain ⟨v, hv, hk, e⟩ := mem_extrasOf arrayKeys o (k, a) hka
+    exact ⟨v, hv, hk, e⟩
+example : ∃ o d, ArrayDoc.ofJ (.obj o) = some d := ⟨exDoc.kvs, exDoc, arrayDoc_roundtrip exDoc exDoc_ok⟩
 
 /-- **rejection**: a document is opened only if no additional field must be understood, and shape, chunk grid and
 dimension names agree in rank -/
 theorem open_demands (d : ArrayDoc) (gridRank : Nat) (h : structOk d gridRank = true) :
     (∀ kv ∈ d.extra, kv.2.mu = false) ∧ gridRank = d.shape.length ∧
     (∀ ns, d.dimNames = some ns → ns.length = d.shape.length) := by
-  sorry
+  unfold structOk at h
+  simp only [Bool.and_eq_true, List.all_eq_true, Bool.not_eq_true', beq_iff_eq] at h
+  obtain ⟨⟨h1, h2⟩, h3⟩ := h
+  refine ⟨h1, h2, ?_⟩
+  intro ns hns
+  rw [hns] at h3
+  simpa using h3
+example : structOk { exDoc with extra := [(ascii "my_ext", exField)] } 2 = true := by decide
 /-- an unknown top-level field without `"must_understand": false` makes the document unopenable -/
 theorem unknown_field_rejected (o : Obj) (d : ArrayDoc) (gridRank : Nat) (h : ArrayDoc.ofJ (.obj o) = some d)
     (hd : keysDistinct o) (k : Str) (v : J) (hk : (k, v) ∈ o) (hu : k ∉ arrayKeys)
     (hv : ¬ ∃ o', v = .obj o' ∧ lookup o' kMustUnderstand = some (.bool false)) :
     structOk d gridRank = false := by
-  sorry
+  have hi := arrayDoc_ofJ_inv o d h
+  have hm : (k, AField.ofJ v) ∈ d.extra := by
+    rw [hi.extra]; exact extrasOf_mem arrayKeys o hd k v hk hu
+  have hmu : (AField.ofJ v).mu = true := by
+    cases hb : (AField.ofJ v).mu with
+    | true => rfl
+    | false => exact absurd ((afield_mu_false_iff' v).1 hb) hv
+  unfold structOk
+  have : d.extra.all (fun kv => !kv.2.mu) = false := by
+    rw [List.all_eq_false]
+    exact ⟨_, hm, by simp [hmu]⟩
+  rw [this]
+  rfl
+example : ∃ o d k v, ArrayDoc.ofJ (.obj o) = some d ∧ keysDistinct o ∧ (k, v) ∈ o ∧ k ∉ arrayKeys ∧
+    ¬ ∃ o', v = .obj o' ∧ lookup o' kMustUnderstand = some (.bool false) :=
+  ⟨exDoc.kvs, exDoc, ascii "zz", .str (ascii "v"), arrayDoc_roundtrip exDoc exDoc_ok,
+    ((obj_wf_iff _).1 (arrayDoc_toJ_wf exDoc ((arrayDoc_ok_iff _).1 exDoc_ok))).2,
+    by simp [ArrayDoc.kvs, extraKVs, exDoc, AField.toJ], by decide, by rintro ⟨o', h, _⟩; cases h⟩
 theorem group_unknown_field_rejected (o : Obj) (d : GroupDoc) (h : GroupDoc.ofJ (.obj o) = some d)
     (hd : keysDistinct o) (k : Str) (v : J) (hk : (k, v) ∈ o) (hu : k ∉ groupKeys)
     (hv : ¬ ∃ o', v = .obj o' ∧ lookup o' kMustUnderstand = some (.bool false)) :
     groupOk d = false := by
-  sorry
+  have hi := groupDoc_ofJ_inv o d h
+  have hm : (k, AField.ofJ v) ∈ d.extra := by
+    rw [hi.extra]; exact extrasOf_mem groupKeys o hd k v hk hu
+  have hmu : (AField.ofJ v).mu = true := by
+    cases hb : (AField.ofJ v).mu with
+    | true => rfl
+    | false => exact absurd ((afield_mu_false_iff' v).1 hb) hv
+  unfold groupOk
+  rw [List.all_eq_false]
+  exact ⟨_, hm, by simp [hmu]⟩
+example : ∃ o d k v, GroupDoc.ofJ (.obj o) = some d ∧ keysDistinct o ∧ (k, v) ∈ o ∧ k ∉ groupKeys ∧
+    ¬ ∃ o', v = .obj o' ∧ lookup o' kMustUnderstand = some (.bool false) :=
+  ⟨exGroup.kvs, exGroup, ascii "zz", .str (ascii "v"), groupDoc_roundtrip exGroup exGroup_ok,
+    ((obj_wf_iff _).1 (groupDoc_toJ_wf exGroup ((groupDoc_ok_iff _).1 exGroup_ok))).2,
+    by simp [GroupDoc.kvs, extraKVs, exGroup, AField.toJ], by decide, by rintro ⟨o', h, _⟩; cases h⟩
 
 /-! ### hierarchy -/
 
 /-- stores the theorems are about: sorted, hierarchy-shaped keys, no unreadable metadata anywhere -/
 def readable (r : Reader) (m : KV) : Prop := ∀ pre, getMeta r m pre ≠ .invalid
 
+/-- a small store: root group, group `a` with a V3 group `b` (holding only chunk data `c/0`), a V2 group `c` with a
+    V2 array `d`, and a directory `x` without metadata; value `[1]` reads as a group, `[2]` as an array -/
+def exStore : KV :=
+  [("a/b/c/0".toList, [2]), ("a/b/zarr.json".toList, [1]), ("a/c/.zgroup".toList, [1]), ("a/c/d/.zarray".toList, [2]),
+   ("a/x/file".toList, [1]), ("a/zarr.json".toList, [1]), ("zarr.json".toList, [1])]
+def exReader : Reader :=
+  { cls := fun v => if v == [1] then some true else if v == [2] then some false else none,
+    okA := fun _ => true, okG := fun _ => true, okAttrs := fun _ => true }
+theorem exStore_ok : exStore.sorted ∧ hierarchyShaped exStore.keys ∧ readable exReader exStore ∧
+    validPrefixB "a/".toList = true :=
+  ⟨by unfold KV.sorted; decide, by unfold hierarchyShaped; decide,
+    readable_of_values exReader exStore (by decide), by decide⟩
+
+-- (`hs` is kept from the stated property; the proof does not need it)
+set_option linter.unusedVariables false in
 /-- **children**: the direct children reported for a prefix are exactly the child prefixes (whose store prefix does not start with the reserved `__`) at
 which metadata is stored, each with the kind its metadata has -/
 theorem children_exact (r : Reader) (m : KV) (hs : m.sorted) (hh : hierarchyShaped m.keys) (hr : readable r m)
@@ -128,7 +324,21 @@ theorem children_exact (r : Reader) (m : KV) (hs : m.sorted) (hh : hierarchyShap
     ∃ ns, children r m false pre = some ns ∧
       ∀ q k, (q, k) ∈ ns ↔ (isChildPrefix pre q = true ∧ ¬ ("__".toList.isPrefixOf q = true) ∧
         getMeta r m q = .node k) := by
-  sorry
+  obtain ⟨ns, h1, h2⟩ := children_false r m hh.1 hr pre (validPrefixB_dirShaped pre hp)
+  refine ⟨ns, h1, ?_⟩
+  intro q k
+  rw [h2, isChildPrefix_iff]
+example : exStore.sorted ∧ hierarchyShaped exStore.keys ∧ readable exReader exStore ∧
+    validPrefixB "a/".toList = true := exStore_ok
+
+/-- on the example store: `a/` has exactly the children `a/b/` (V3 group) and `a/c/` (V2 group); `a/x/` holds no
+    metadata and is not listed -/
+example : ∃ ns, children exReader exStore false "a/".toList = some ns ∧
+    ("a/b/".toList, Kind.group3) ∈ ns ∧ ("a/c/".toList, Kind.group2) ∈ ns ∧ ∀ k, ("a/x/".toList, k) ∉ ns := by
+  obtain ⟨ns, h1, h2⟩ := children_exact exReader exStore exStore_ok.1 exStore_ok.2.1 exStore_ok.2.2.1 _ exStore_ok.2.2.2
+  refine ⟨ns, h1, (h2 _ _).2 (by decide), (h2 _ _).2 (by decide), fun k hk => ?_⟩
+  have := ((h2 _ _).1 hk).2.2
+  revert this; cases k <;> decide
 
 /-- every prefix strictly between `pre` and `q` holds group metadata -/
 def groupsBetween (r : Reader) (m : KV) (pre q : Key) : Prop :=
@@ -138,6 +348,8 @@ def groupsBetween (r : Reader) (m : KV) (pre q : Key) : Prop :=
 /-- the store prefix does not start with the reserved `__` (the code tests the whole prefix) -/
 def noReserved (_pre q : Key) : Prop := ¬ ("__".toList.isPrefixOf q = true)
 
+-- (`hs` is kept from the stated property; the proof does not need it)
+set_option linter.unusedVariables false in
 /-- **the whole tree**: the recursive listing beneath a prefix is exactly the set of prefixes with stored metadata
 that are reachable through groups, each with its kind and its full prefix -/
 theorem tree_exact (r : Reader) (m : KV) (hs : m.sorted) (hh : hierarchyShaped m.keys) (hr : readable r m)
@@ -145,27 +357,54 @@ theorem tree_exact (r : Reader) (m : KV) (hs : m.sorted) (hh : hierarchyShaped m
     ∃ ns, children r m true pre = some ns ∧
       ∀ q k, (q, k) ∈ ns ↔ (pre.isPrefixOf q = true ∧ q ≠ pre ∧ validPrefixB q = true ∧ getMeta r m q = .node k ∧
         groupsBetween r m pre q ∧ noReserved pre q) := by
-  sorry
+  obtain ⟨ns, h1, h2⟩ := children_true r m hh.1 hr pre (validPrefixB_dirShaped pre hp)
+  refine ⟨ns, h1, ?_⟩
+  intro q k
+  rw [h2]
+  exact Iff.rfl
+example : exStore.sorted ∧ hierarchyShaped exStore.keys ∧ readable exReader exStore ∧
+    validPrefixB "a/".toList = true := exStore_ok
 
+-- (`hs`, `hh`, `hp` are kept from the stated property; the proof does not need them)
+set_option linter.unusedVariables false in
 /-- **`Node::open`** returns the node and, for a group, its whole tree; it fails exactly when there is no metadata -/
 theorem openNode_exact (r : Reader) (m : KV) (hs : m.sorted) (hh : hierarchyShaped m.keys) (hr : readable r m)
     (pre : Key) (hp : validPrefixB pre = true) :
     (getMeta r m pre = .missing → openNode r m pre = none) ∧
     (∀ k, getMeta r m pre = .node k → ∃ ns, openNode r m pre = some ns ∧ (pre, k) ∈ ns ∧
       (k.isGroup = false → ns = [(pre, k)])) := by
-  sorry
+  refine ⟨?_, ?_⟩
+  · intro h; unfold openNode; rw [h]
+  · intro k h
+    unfold openNode
+    rw [h]
+    cases hg : k.isGroup with
+    | false => exact ⟨[(pre, k)], by simp [hg], by simp, fun _ => rfl⟩
+    | true =>
+      obtain ⟨ts, hts⟩ := childNodes_some r m hr (depthBound m) true pre
+      refine ⟨(pre, k) :: flattenList ts, ?_, List.mem_cons_self .., fun hc => by cases hc⟩
+      unfold children
+      rw [hts]
+      simp [hg]
+example : exStore.sorted ∧ hierarchyShaped exStore.keys ∧ readable exReader exStore ∧
+    validPrefixB "a/".toList = true := exStore_ok
+example : getMeta exReader exStore "a/".toList = .node .group3 ∧ getMeta exReader exStore "a/x/".toList = .missing := by decide
 
 /-- **existence** is the presence of one of the three metadata keys -/
 theorem nodeExists_iff (r : Reader) (m : KV) (pre : Key) (hr : readable r m) :
     nodeExists m pre = true ↔ ∃ k, getMeta r m pre = .node k := by
-  sorry
+  exact nodeExists_iff_node r m pre (hr pre)
+example : readable exReader exStore := exStore_ok.2.2.1
 
 /-- erasing a node's prefix removes it and everything beneath from every listing, and nothing else -/
 theorem erase_prefix_exact (r : Reader) (m : KV) (p q : Key) (hp : p.getLast? = some '/') (hq : ¬ (p.isPrefixOf q = true)) :
     getMeta r (Spec.step m (.erasePrefix p)).1 q = getMeta r m q := by
-  sorry
+  exact getMeta_erasePrefix_other r m p q hp hq
+example : ("a/b/".toList : Key).getLast? = some '/' ∧ ¬ (("a/b/".toList : Key).isPrefixOf "a/c/".toList = true) := by decide
 theorem erase_prefix_gone (r : Reader) (m : KV) (p q : Key) (hq : p.isPrefixOf q = true) :
     getMeta r (Spec.step m (.erasePrefix p)).1 q = .missing := by
-  sorry
+  exact getMeta_erasePrefix_under r m p q hq
+example : ("a/".toList : Key).isPrefixOf "a/b/".toList = true := by decide
+
 
 end Zarrs.C13
